@@ -480,6 +480,9 @@ func (w *SessWorld) SendOps(s *SS, specs []gen.OpSpec, stamp *spb.Uint128) []str
 	if res.RPCErr == drv.ErrWatchdog {
 		return []string{"INCONCLUSIVE|operations on " + s.Name + ": no barrier answer within the watchdog"}
 	}
+	if res.Unanswered > 0 {
+		probs = append(probs, fmt.Sprintf("operation-without-response|%s: %d operations produced no ModifyResponse although the RPC stayed up", s.Name, res.Unanswered))
+	}
 	if len(res.Other) > 0 {
 		probs = append(probs, fmt.Sprintf("unsolicited-response|%s received non-result responses while operating: %v", s.Name, res.Other))
 	}
